@@ -149,10 +149,15 @@ def is_relevant(node):
             if nodes.contains(node[2], is_seq_type):
                 return True
         elif node.get_ident() in ['declare-fun', 'define-fun', 'define-sort']:
+            # parameter sorts (node[2]) and result sort (node[3])
             if len(node) < 4:
                 return False
             if nodes.contains(node[3], lambda t: t == 'String'):
                 return True
+            if nodes.contains(node[2], lambda t: t == 'String'):
+                return True
             if nodes.contains(node[3], is_seq_type):
+                return True
+            if nodes.contains(node[2], is_seq_type):
                 return True
     return False
